@@ -284,6 +284,17 @@ std::string tokenLike(Prng& r)
 	return s;
 }
 
+// every piece is handed over in a heap block that ends exactly at its terminating NUL, so that a parser
+// looking past the end of a piece is seen by the sanitizer whatever the piece's length
+void parsePiece(asl::XdlParser& ps, const std::string& piece)
+{
+	char* b = (char*)malloc(piece.size() + 1);
+	memcpy(b, piece.data(), piece.size());
+	b[piece.size()] = 0;
+	ps.parse(b);
+	free(b);
+}
+
 asl::Var feed(const std::string& text, const std::vector<size_t>& cuts)
 {
 	asl::XdlParser ps;
@@ -292,10 +303,10 @@ asl::Var feed(const std::string& text, const std::vector<size_t>& cuts)
 	{
 		if (c <= prev || c >= text.size())
 			continue;
-		ps.parse(text.substr(prev, c - prev).c_str());
+		parsePiece(ps, text.substr(prev, c - prev));
 		prev = c;
 	}
-	ps.parse(text.substr(prev).c_str());
+	parsePiece(ps, text.substr(prev));
 	ps.parse(" ");
 	return ps.value();
 }
@@ -516,6 +527,11 @@ void runStream(const Plan& p)
 				if (len > last)
 					continue;
 				asl::Var rp = asl::Json::decode(asl::String(text.substr(0, len).c_str()));
+				{
+					// the same truncated text once more in a block that ends at its NUL (memory safety of look-aheads)
+					asl::XdlParser pp;
+					parsePiece(pp, text.substr(0, len));
+				}
 				if (rp.ok())
 				{
 					sim::fail("conformance", "truncated_document_accepted", "the first %zu bytes of a %zu-byte document (top-level %s) are accepted as a complete value", len, text.size(),
